@@ -36,6 +36,9 @@ func (e *Engine) verifyFunction(fn *ssa.Function) (rep *FnReport) {
 		return rep
 	}
 	c := e.newFnCtx(fn, ct)
+	if tc0, _ := e.typeContractOfFn(fn); tc0 != nil && tc0.Floats == "ieee" {
+		c.floatsIEEE = true
+	}
 	defer func() {
 		if r := recover(); r != nil {
 			// an engine failure on a function must never look like a proof
@@ -78,6 +81,9 @@ func (e *Engine) verifyFunction(fn *ssa.Function) (rep *FnReport) {
 	// function-type contract (e.g. the lexer's stateFn) and the identity of this function value
 	tc, tnamed := e.typeContractOfFn(fn)
 	var self Val
+	if tc != nil && tc.Floats == "ieee" {
+		c.floatsIEEE = true
+	}
 	if tc != nil {
 		rep.HasContract = true
 		if len(fn.FreeVars) == 0 && fn.Parent() == nil {
